@@ -119,6 +119,15 @@ func (s *Shard) Init() error {
 
 	s.gc.init()
 
+	// Open() opened every component read-write and a mode configured via
+	// WithMode has only restricted the shard-level checks so far: switch the
+	// components (write-cache flush workers, blobstor, metabase) to it as well.
+	if m := s.GetMode(); m != mode.ReadWrite {
+		if err := s.SetMode(m); err != nil {
+			return fmt.Errorf("could not apply configured mode %s: %w", m, err)
+		}
+	}
+
 	return nil
 }
 
